@@ -255,6 +255,11 @@ func (s *Synchronizer) advanceView(syncInfo hotstuff.SyncInfo) {
 		s.logger.Infof("advanceView: Failed to verify sync info: %v", err)
 		return
 	}
+	if tc, ok := syncInfo.TC(); ok {
+		// remember the highest timeout certificate: it is sent along in timeout and new-view
+		// messages so that replicas that missed that round of timeouts can catch up.
+		s.state.UpdateHighTC(tc)
+	}
 	if qc != nil {
 		updated, err := s.state.UpdateHighQC(*qc)
 		if err != nil {
